@@ -67,7 +67,7 @@ def gen_tree(rng: Rng) -> dict:
             names = rng.sample(DIR_NAMES, rng.randint(1 if container else 0, 2 if depth else 3))
             # sibling directories where one name is a string prefix of the other
             for a_, b_ in (("a", "a1"), ("sub", "sub2"), ("models", "models_v2")):
-                if a_ in names and b_ not in names and rng.chance(0.5):
+                if a_ in names and b_ not in names and rng.chance(0.7):
                     names.append(b_)
             for dn in names:
                 sub = d + "/" + dn
@@ -150,14 +150,15 @@ def gen_queries(rng: Rng, world: dict) -> list[dict]:
             cwd = rng.choice([d for d in dirs if d.count("/") <= 1 and clean_above(d)] or ["proj"])
         under = [d for d in dirs if d == cwd or d.startswith(cwd + "/")]
         sibs = [d for d in dirs if d.count("/") == 1 and d != cwd] if cwd.count("/") == 1 else []
-        if sibs and rng.chance(0.2):
+        if sibs and rng.chance(0.35):
             # a target OUTSIDE the working directory: a sibling directory (by preference one whose name
             # merely extends the cwd's name: a / a1), or something below it, spelled absolutely or ../rel.
             # Applicable ignore files are then those from the common ancestor down to the file.
             pref = [d for d in sibs if d.startswith(cwd) or cwd.startswith(d)]
             sib = rng.choice(pref) if pref and rng.chance(0.6) else rng.choice(sibs)
             below = [d for d in dirs if d == sib or d.startswith(sib + "/")] + [f for f in files if f.startswith(sib + "/")]
-            target = rng.choice(below)
+            deep = [x for x in below if x != sib]
+            target = rng.choice(deep) if deep and rng.chance(0.6) else rng.choice(below)
             chosen = ["$ABS", os.path.relpath(target, cwd)]
             if target in dirs:
                 chosen.append("$ABS/")
